@@ -1,6 +1,11 @@
 // C17 — FileTransfer reassembly state machine (child module of plugins::file_transfer: private struct visible).
 use super::*;
 
+/// capacity reserved when data is kept: production reserves nr_packages * buffer_size (announced) or 512 bytes (announcement lost);
+/// the harness files have at most 6 bytes, so 16 stands for 'more than the file', and the `_cap2` harnesses scale the 512 down to 2
+/// so that the stored length reaches and exceeds the reserved capacity (added after seeded change C17-8)
+static mut KEEP_CAP: usize = 16;
+
 fn new_ft(state: FileTransferState, nr_packages: u64, buffer_size: u64, file_size: u64, keep: bool) -> FileTransfer {
     FileTransfer {
         ecu: DltChar4::from_buf(b"ECU1"),
@@ -15,7 +20,7 @@ fn new_ft(state: FileTransferState, nr_packages: u64, buffer_size: u64, file_siz
         next_package: 1,
         recvd_packages: 0,
         recvd_payload: 0,
-        file_data: Vec::with_capacity(if keep { 16 } else { 0 }),
+        file_data: Vec::with_capacity(if keep { unsafe { KEEP_CAP } } else { 0 }),
         auto_saved_to: None,
     }
 }
@@ -137,6 +142,12 @@ fn c17_t3_missing_start_k3() {
 #[kani::unwind(8)]
 fn c17_t3_missing_start_k4() {
     t1_deliveries::<4>(false, true);
+}
+#[kani::proof]
+#[kani::unwind(10)]
+fn c17_t3_missing_start_cap2_k3() {
+    unsafe { KEEP_CAP = 2 };
+    t1_deliveries::<3>(false, true);
 }
 
 /// T2 progress: all genuine packages 1..nr in order, with at most one duplicate of an already delivered package
